@@ -3083,7 +3083,8 @@ impl Context {
                 )
             }
             Expr::Error => {
-                self.push_inst(Instruction::Error);
+                // A placeholder left by the parser (its error has been reported) or an empty
+                // program: it has no value and generates no code.
                 (Arc::new(Value::None), unit!(), vec![])
             }
         }
@@ -4350,7 +4351,17 @@ pub fn compile_with_module_info(
     let (expr, mut infer_ctx, errors) =
         typecheck_with_module_info(expr, builtin_types, file_path.clone(), module_info);
     if errors.is_empty() {
-        let top_type = infer_ctx.infer_type(expr).unwrap();
+        // The type of the whole program may still fail to be inferred although no error was
+        // recorded while checking its parts (e.g. a top-level `+1` or `1 = 1`): report it.
+        let top_type = match infer_ctx.infer_type(expr) {
+            Ok(ty) => ty,
+            Err(type_errs) => {
+                return Err(type_errs
+                    .into_iter()
+                    .map(|e| -> Box<dyn ReportableError> { Box::new(e) })
+                    .collect());
+            }
+        };
 
         // ---------- Two-pass compilation via translate_staging ----------
         //
